@@ -34,7 +34,7 @@ inductive Outcome (α : Type) where
   | ok (a : α)
   | err (e : Err)
   | panic (why : String)
-deriving Repr
+deriving Repr, DecidableEq
 
 namespace Outcome
 
